@@ -29,7 +29,8 @@ pub struct Light {
     pub early_terminations: bool,
     pub owner: ActorID,
     pub beneficiary: ActorID,
-    pub quota_left: Option<BigInt>,
+    /// beneficiary term (quota, used, expiration) when the beneficiary is not the owner
+    pub term: Option<(BigInt, BigInt, i64)>,
 }
 
 #[derive(Default)]
@@ -59,13 +60,7 @@ pub fn schedule(amount: &BigInt, epoch: i64, offset: i64) -> Vec<(i64, BigInt)> 
 }
 
 fn light_of(w: &World, mv: &MinerView) -> Light {
-    let now = w.v.epoch();
-    let quota_left = if mv.beneficiary != mv.owner {
-        let (q, u, e) = &mv.beneficiary_term;
-        Some(if *e > now { std::cmp::max(q - u, BigInt::zero()) } else { BigInt::zero() })
-    } else {
-        None
-    };
+    let term = if mv.beneficiary != mv.owner { Some(mv.beneficiary_term.clone()) } else { None };
     Light {
         period_start: mv.period_start,
         locked: mv.locked.clone(),
@@ -76,7 +71,7 @@ fn light_of(w: &World, mv: &MinerView) -> Light {
         early_terminations: !mv.early_terminations.is_empty(),
         owner: mv.owner,
         beneficiary: mv.beneficiary,
-        quota_left,
+        term,
     }
 }
 
@@ -214,10 +209,13 @@ fn check_inner(c: &mut Checks, w: &World, miners: &[MinerH], r: Option<&MsgResul
                 let vested: BigInt = c.vest_prev_rows.get(&m.id).map(|rows| rows.iter().filter(|(e, _)| **e < now).map(|(_, a)| a.clone()).sum()).unwrap_or_default();
                 let available = &before.balance - (&before.locked - &vested) - &before.pcd - &before.ip - &before.fee_debt;
                 let mut cap = std::cmp::min(req.clone(), std::cmp::max(available.clone(), BigInt::zero()));
-                if let Some(q) = &before.quota_left {
+                // the beneficiary's quota counts only while its term has not expired (expiration > current epoch)
+                let quota_left: Option<BigInt> = before.term.as_ref().map(|(q, u, e)| if *e > now { std::cmp::max(q - u, BigInt::zero()) } else { BigInt::zero() });
+                if let Some(q) = &quota_left {
                     cap = std::cmp::min(cap, q.clone());
+                    stats.label("withdrawal_under_beneficiary_term");
                 }
-                vassert!(paid == cap, "withdraw-amount", "miner {} paid {} for a request of {}; balance {} vesting {} (vested {}) deposits {} pledge {} debt {} quota {:?} allow exactly {}", m.id, paid, req, before.balance, before.locked, vested, before.pcd, before.ip, before.fee_debt, before.quota_left, cap);
+                vassert!(paid == cap, "withdraw-amount", "miner {} paid {} for a request of {}; balance {} vesting {} (vested {}) deposits {} pledge {} debt {} quota {:?} allow exactly {}", m.id, paid, req, before.balance, before.locked, vested, before.pcd, before.ip, before.fee_debt, quota_left, cap);
                 let mut sent = BigInt::zero();
                 let mut wrong: Option<ActorID> = None;
                 for s in &t.subs {
